@@ -46,12 +46,13 @@ pub struct ExploreStats {
     pub distinct_traces: HashSet<u64>,
     pub conflicting_execs: u64,
     pub timer_fires: u64,
+    pub spurious_wakes: u64,
 }
 
 pub fn cost(kind: AltKind, mode: Mode) -> u32 {
     match kind {
         AltKind::Default => 0,
-        AltKind::Preempt | AltKind::Timer | AltKind::Waiter => 1,
+        AltKind::Preempt | AltKind::Timer | AltKind::Waiter | AltKind::Spurious => 1,
         AltKind::Switch => match mode {
             Mode::Chess => 0,
             Mode::Strict => 1,
@@ -130,4 +131,5 @@ pub fn account(stats: &mut ExploreStats, res: &RunResult, node: &Node) {
         stats.conflicting_execs += 1;
     }
     stats.timer_fires += res.timer_fires;
+    stats.spurious_wakes += res.spurious_wakes;
 }
